@@ -20,7 +20,10 @@ Two layers, both complete enumerations of explicitly bounded spaces (DESIGN.md s
     in the last row (a last tile that is exactly full is a boundary case of the tile loop of
     recalculate_table_data). A further family writes every ordered
     pair of values into one table (shared strings, overwrite with a different type, second
-    save cycle on the reopened document).
+    save cycle on the reopened document), and the same pairs in a 'pair-same' family in which ONE
+    open Document is edited and saved three times (second cycle of writes after the first save, third
+    save without an edit), each saved file reopened and judged - state that survives a save (string
+    table keys, memoised lookups) is part of the history there.
 
 Oracle (nothing beyond the statement): the cell class is the one for the written Python type,
 `cell.value == written` (Python ==), for floats also repr equality; table dimensions are exactly
@@ -661,6 +664,11 @@ def doc_plans(tier, seed):
             c2 = [[0, 0, encv[b], b], [3, 3, encv[a], a], [2, 1, encv[b], b]]
             plans.append({"family": "pair", "shape": [3, 3], "headers": [1, 1], "scenario": "pair", "pair": [a, b], "cycles": [c1, c2]})
             triples.add(("pair", a, b))
+            # the same pair with both saves made from one open Document (state kept across saves: string
+            # table keys, memoised lookups), then a third save without any edit in between
+            plans.append({"family": "pair-same", "shape": [3, 3], "headers": [1, 1], "scenario": "pair-same", "pair": [a, b],
+                          "same_object": True, "cycles": [c1, c2, []]})
+            triples.add(("pair-same", a, b))
     return plans, triples
 
 
@@ -713,7 +721,7 @@ def eval_doc(plan):
             old = (t.num_rows, t.num_cols)
             where = ("growth-both" if c >= old[1] else "growth-rows") if r >= old[0] else ("growth-cols" if c >= old[1] else "in-bounds")
             if ci:
-                where = "reopened:" + where
+                where = ("sameobject:" if plan.get("same_object") else "reopened:") + where
             try:
                 t.write(r, c, v)
             except Exception as e:  # noqa: BLE001
@@ -732,6 +740,7 @@ def eval_doc(plan):
         except Exception as e:  # noqa: BLE001
             out.append((ident("exception-save", type(e).__name__), f"{tag}: save (cycle {ci}) raised {type(e).__name__}: {e}"))
             return out
+        wdoc, wt = doc, t
         try:
             doc = Document(path)
             t = doc.sheets[0].tables[0]
@@ -791,6 +800,9 @@ def eval_doc(plan):
             out.append((ident("exception-scan", type(e).__name__), f"{tag}: reading the unwritten cells raised {type(e).__name__}: {e}"))
         if bad:
             out.append((ident("untouched-not-empty", "-"), f"{tag}: {len(bad)} cells never written are not empty after reopen (cycle {ci}), first {bad[0]}"))
+        if plan.get("same_object"):
+            # the next cycle edits and saves the SAME open Document again (the file just verified was a snapshot)
+            doc, t = wdoc, wt
     return out
 
 
